@@ -1,7 +1,8 @@
 """C20 - the debtags database keeps its two indexes mutually inverse.
 
 case = {"kind": "history",
-        "init":   [[packages, tags, style], ...],   text lines for the first database's read(), or
+        "init":   [[packages, tags, style], ...],   text lines for the first database's read() (a package: a name,
+                  or {"long": [prefix, unit, n, suffix]} = prefix + unit * n + suffix, see long_name), or
                   {"big": {"chars": n, "block": B, "off": d}}   a long text written out by big_entries()
         "form":   "iter" | "list" | "stringio" | "file"   how read() gets the text (default "iter"):
                   iterator over the lines, list of lines, io.StringIO, real text file opened for reading
@@ -84,6 +85,16 @@ f:sub::y, special, :x - nothing says what their facet is) is still derived from,
 only this is demanded: same packages, the facets of the well-formed tags present, at most one name
 per other tag, and the reverse index exactly inverse to the forward one (Interp.loose_facets).
 
+Package names: the quantifier says "distinct package names of any length" and excludes no
+character, so a read() text carries names of every shape its line format can hold (NAME_OK: no
+white space, no comma, no colon in the last place - the package list of a line ends at the first
+colon followed by white space or the end of the line): colons and double colons inside a name
+(libc6:amd64, x:y:z, a::b), a leading colon, dots, plus signs, digits only, names of up to 80000
+characters - in single-package and multi-package lines, with and without tags.  The reference
+relation is built from the [packages, tags] structure the text was written from, never by parsing.
+Not generated: names ending in a colon ("a:" alone on a line is the package a followed by a bare
+colon in the unchanged reader), names with white space or commas (the separators of the format).
+
 Known finding "insert-chars" (known_findings.json): dual model, see Interp.settle().
 """
 import io
@@ -133,9 +144,16 @@ RULE = ("cases are histories [init lines, tag filter, op list] over a pool of da
         "length 1..2 over 4 inserts, reverse, copy, facet_collection, filter_tags / filter_packages keeping "
         "everything x targets], both spellings; after every insert every live database is looked at "
         "(unchanged unless it documentedly shares a package set the insert adds to); "
+        "enumerated package names: 7920 read()s of a two-line text in which one line holds a name of one of 33 "
+        "shapes (libc6:amd64, x:y:z, a::b, :a, a:::b, 1.2.3, ., c++, +, 0, 007, non-ASCII, 300 / 5000 / 70000 / "
+        "75000 / 80000 characters with and without colons) alone, first, in the middle, last or next to another such "
+        "name x two tags / one tag / no tag in the four line styles x 4 input forms x last line with / without "
+        "newline, each followed by choose_packages_copy, an insert, reverse() and the multi-name queries; "
         "generated: 0..8 initial packages "
         "in single- and multi-package lines (distinct names of 1..6 characters; one-character names in "
-        "about half of the positions and exclusively in a quarter of the histories), 14 facet::tag "
+        "about half of the positions and exclusively in a fifth of the histories; in another fifth names of 1..9 "
+        "characters over a b 1 0 : . + not ending in a colon and fixed ones such as libc6:amd64, x:y:z, a::b, :a, 1.2, "
+        "c++, 42, f::a - also as inserted names, selections and query arguments), 14 facet::tag "
         "names sharing 6 facets (+ w::i:r and, in about a tenth of the lines and inserts, the odd tags), "
         "optional tag_filter, 1..12 operations (thorough: 1..20) = inserts, "
         "all 12 derivations (choose_packages_copy also with names the collection lacks; about a fifth of the "
@@ -192,6 +210,11 @@ ASSUMPTIONS = [
     "stored as it is, a frozenset breaks a later insert through a reverse() view, views and iterators have no "
     "copy()) - always a set; ideal_tagset (documented List[str], sliced and measured) - list or tuple only; the "
     "filter_* methods take predicates, not collections",
+    "text format as the unchanged reader defines it: one line = package names joined by ', ', then nothing / "
+    "':' / ':' + white space [+ tags joined by ', ']; the package list ends at the first colon followed by white "
+    "space or the end of the line, so a generated name holds no white space, no comma and does not end in a colon "
+    "(NAME_OK) but may hold colons elsewhere; the reference is built from the generated [packages, tags] lists; names "
+    "ending in a colon, or holding commas / white space, are not generated (their reading is not fixed by any text)",
     "read() input forms: iterator of lines, list of lines, io.StringIO, text file written with "
     "encoding utf-8/newline='' into a per-read mkdtemp() (under /dev/shm when available) and opened with "
     "open(path, 'r', encoding='utf-8'); each element/line ends with '\\n' except optionally the last",
@@ -208,12 +231,14 @@ EXHAUSTIVE = {
              "(36 derivations x 11 routes to the data in between x 4 spellings x 3 follow-ups, REPEAT_DESC); 32256 "
              "histories after a choice / filter keeping everything / nothing / all but one (KEEP_DESC); 5920 "
              "histories handing choose_packages(_copy) and the multi-name queries their names in 8 forms x 3 orders "
-             "(FORM_DESC)",
+             "(FORM_DESC); 7920 read()s of a text holding a package name with colons / '::' / dots / plus signs / "
+             "digits only / 300..80000 characters in every position of a tagged or untagged line x input form x "
+             "final newline (NAME_DESC)",
     "thorough": "all op sequences of length 1..3 over the 19-op alphabet x both spellings and of length 1..4 over "
                 "its first 17 ops "
                 "(snake_case; no multi-name queries / pickle round trip) x target index 0..position on the fixed "
                 "collection; the 72 long-text read()s of the quick tier; the failed-read, odd-tag, repeated-derivation, "
-                "boundary-filter and argument-form enumerations of the quick tier",
+                "boundary-filter, argument-form and package-name-shape enumerations of the quick tier",
 }
 BUDGET = {"quick": 200, "thorough": 1500}
 
@@ -241,7 +266,12 @@ ALIAS = {"facet_collection": "facetCollection", "reverse_copy": "reverseCopy",
          "tag_count": "tagCount", "ideal_tagset": "idealTagset"}
 OLD = "old:"                             # op-name prefix: this step goes through the deprecated aliases
 FORMS = ("iter", "list", "stringio", "file")     # how read() is handed its text
-NAME_OK = re.compile(r"[^\s,:]+\Z")      # what a line of the text format can carry as a package
+# What a line of the text format can carry as a package name.  The reader ends the package list of a
+# line at the first colon that is followed by white space or by the end of the line, and cuts the
+# list at ", " - so a name may hold any character except white space, and colons anywhere but at its
+# end (libc6:amd64, x:y:z, a::b, :a; "a:" alone on a line is the package a with a bare colon).  Commas
+# are left out: they are the separator, and nothing says whether "a,b" is one name or two.
+NAME_OK = re.compile(r"[^\s,]*[^\s,:]\Z")
 TAG_OK = re.compile(r"[^\s,]+\Z")
 ABSENT = ["zz-absent", "a", "f::a"]
 # how a method that takes a collection of names (Iterable[str]) is handed them; the last three can
@@ -343,6 +373,46 @@ def line_of(pkgs, tags, style):
     return head + ("", ":", ": ", ":\t")[style % 4] + "\n"
 
 
+def long_name(spec):
+    """A very long package name written out from [prefix, unit, n, suffix] = prefix + unit * n +
+    suffix (the case stays small); None when the spec is not of that form."""
+    if not (isinstance(spec, list) and len(spec) == 4 and isinstance(spec[0], str) and isinstance(spec[1], str)
+            and isinstance(spec[2], int) and not isinstance(spec[2], bool) and isinstance(spec[3], str)):
+        return None
+    return spec[0] + spec[1] * max(0, min(spec[2], 200000)) + spec[3]
+
+
+def pkg_names(x):
+    """The package names of one line: strings, or {"long": [prefix, unit, n, suffix]} (long_name)."""
+    out = []
+    for p in x if isinstance(x, list) else []:
+        if isinstance(p, dict):
+            p = long_name(p.get("long"))
+        if isinstance(p, str) and p:
+            out.append(p)
+    return out
+
+
+def name_shapes(name):
+    """What is unusual about a package name (labels; the oracle treats every name alike)."""
+    out = []
+    if ":" in name:
+        out.append("double-colon" if "::" in name else "colon")
+        if name[0] == ":":
+            out.append("leading-colon")
+    if "." in name:
+        out.append("dot")
+    if "+" in name:
+        out.append("plus")
+    if name.isdigit():
+        out.append("digits-only")
+    if len(name) > 65536:
+        out.append("longer-than-64KiB")
+    elif len(name) >= 256:
+        out.append("256+-characters")
+    return out
+
+
 def clean_lines(entries, labels):
     """Sanitise [[pkgs, tags, style]] (Hypothesis may shrink to anything): names must be
     representable in the text format, and every package occurs once in the whole text."""
@@ -351,7 +421,7 @@ def clean_lines(entries, labels):
         if not (isinstance(ent, list) and len(ent) >= 2):
             continue
         pkgs = []
-        for p in strs(ent[0]):
+        for p in pkg_names(ent[0]):
             if NAME_OK.match(p) and p not in seen:
                 seen.add(p)
                 pkgs.append(p)
@@ -416,7 +486,7 @@ def check_queries(db, s, who, old=False):
         raise Violation("query:" + (ALIAS.get(method, method) if old else method),
                         "%s: %s(%s) = %s, the relation says %s" % (
                             who, ALIAS.get(method, method) if old else method,
-                            "" if arg is None else repr(arg), short(got, 120), short(want, 120)))
+                            "" if arg is None else short(arg, 120), short(got, 120), short(want, 120)))
     n, nt = len(s.fwd), len(s.rev)
     package_count, tag_count = meth(db, "package_count", old), meth(db, "tag_count", old)
     if package_count() != n:
@@ -698,8 +768,16 @@ class Interp(object):
         if size > 65536:
             self.labels.add("read-from:%s/text>64KiB" % form)
 
+    def note_names(self, lines):
+        for pkgs, tags, _ in lines:
+            for p in pkgs:
+                for shape in name_shapes(p):
+                    self.labels.add("name:%s/%s/%s" % (shape, "multi-package-line" if len(pkgs) > 1 else
+                                                       "single-package-line", "tagged" if tags else "untagged"))
+
     def do_read(self, entries, flt, origin="read", form="iter", final_newline=True, old=False):
         lines = clean_lines(entries, self.labels)
+        self.note_names(lines)
         allowed = None if flt is None else set(strs(flt))
         db = DB()
         self.feed(db, lines, allowed, form, final_newline)
@@ -728,6 +806,7 @@ class Interp(object):
         views included - must show exactly what it showed before, through every query method, and
         stays in the pool for whatever the history does next."""
         lines = clean_lines(entries_of(entries), self.labels)
+        self.note_names(lines)
         allowed = None if flt is None else set(strs(flt))
         views = self.sharers(e)
         try:
@@ -1482,6 +1561,39 @@ def form_cases():
                                        "ops": head + [[mark + op, tgt, sel, [kind, r]]] + [list(o) for o in after]}
 
 
+# package names of every shape the text format can carry, in every position of a line
+NAME_SHAPES = [
+    "libc6:amd64", "x:y:z", "a::b", "role::program", ":a", "::a", "a:::b", "1:2", "a:b::c:d",
+    "python3.11", "1.2.3", ".", "..", ".a", "a.", "c++", "+", "libstdc++6", "g++-12.1:i386",
+    "0", "7", "42", "007", "20260927", "a-b_c~d", "\u00e9:\u00fc.\u00df+1",
+    "n" * 300, "lib" + "x" * 300 + ":amd64", ".".join(["1"] * 150),
+    {"long": ["lib", "x", 5000, ":amd64"]}, {"long": ["", "ab:", 25000, "z"]},
+    {"long": ["", "9", 70000, ""]}, {"long": ["v", ".0", 40000, "+b1"]},
+]
+NAME_TAGGED = [["f::a", "g::b"], ["f::a"]]
+NAME_TAIL = [["choose_copy", 0, ALL], ["insert", 1, "n", ["f::a"]], ["reverse", 0], ["mquery", 0, ["f::a", "p"]]]
+NAME_DESC = ("read() of a two-line text [p: f::a | one line holding a package name N] for %d names N - with one "
+             "colon, several, '::', a leading colon, equal to a tag text, dots, plus signs, digits only, non-ASCII, "
+             "of 300, 5000, 70000, 75000 and 80000 characters (plain, with a colon close to the end, with a colon in "
+             "every third place) - x the line [N | N, q | p2, N | p2, N, q | N, N' (the next name of the list)] x "
+             "[two tags, style 0 / one tag, padded style | no tag: nothing, ':', ': ', ':<tab>' after the names] x "
+             "input form (iterator, list, io.StringIO, real file) x last line with / without newline, followed by "
+             "choose_packages_copy of everything, an insert into the copy, reverse() and the multi-name queries" % (
+                 len(NAME_SHAPES)))
+
+
+def name_cases():
+    for i, n in enumerate(NAME_SHAPES):
+        nxt = NAME_SHAPES[(i + 1) % len(NAME_SHAPES)]
+        for pkgs in ([n], [n, "q"], ["p2", n], ["p2", n, "q"], [n, nxt]):
+            for tags, style in ((NAME_TAGGED[0], 0), (NAME_TAGGED[1], 3), ([], 0), ([], 1), ([], 2), ([], 3)):
+                for form in FORMS:
+                    for final_newline in (True, False):
+                        yield {"kind": "history", "init": [[["p"], ["f::a"], 0], [list(pkgs), list(tags), style]],
+                               "form": form, "final_newline": final_newline, "filter": None,
+                               "ops": [list(o) for o in NAME_TAIL]}
+
+
 # read() of long texts: (characters, block size) x offset of the aligned newlines x input form x
 # last line with/without newline; each followed by a copy-derivation and an insert
 BIG_SHAPES = [(3000, 512), (70000, 4096), (140000, 65536)]
@@ -1531,9 +1643,15 @@ MULTI = "abpx1-é"
 EXTRA_TAGS = ["f::n", "g::n", "k::a", "role::n::m", "w::i:r"]
 name1 = st.sampled_from(ONE)
 nameN = st.text(alphabet=st.sampled_from(MULTI), min_size=2, max_size=6)
+# names over everything a line can carry (NAME_OK): colons - not in the last place -, dots, plus signs, digits
+WIDE = "ab1:.+:0"
+WIDE_FIXED = ["libc6:amd64", "libc6:i386", "x:y:z", "a::b", ":a", "1.2", "c++", "42", "0", ".", "+", "f::a", "g::a"]
+nameW = st.one_of(st.text(alphabet=st.sampled_from(WIDE), min_size=1, max_size=8).map(
+    lambda s: s + "x" if s.endswith(":") else s), st.sampled_from(WIDE_FIXED))
 NAMES = {"single": st.lists(name1, unique=True, min_size=3, max_size=14),
          "multi": st.lists(nameN, unique=True, min_size=3, max_size=14),
-         "mixed": st.lists(st.one_of(name1, nameN), unique=True, min_size=3, max_size=14)}
+         "mixed": st.lists(st.one_of(name1, nameN), unique=True, min_size=3, max_size=14),
+         "wide": st.lists(st.one_of(nameW, nameW, nameW, name1, nameN), unique=True, min_size=3, max_size=14)}
 IDX = st.integers(0, 7)
 ANY = st.integers(0, 13).map(lambda j: "@%d" % j)
 FRESH = st.integers(0, 9).map(lambda j: "+%d" % j)
@@ -1672,7 +1790,7 @@ def gen_case(max_ops=12):
     ops = st.one_of(st.lists(spelt_op, min_size=1, max_size=4),
                     st.lists(spelt_op, min_size=5, max_size=max_ops),
                     st.lists(spelt_op, min_size=max_ops // 2 + 2, max_size=max_ops))
-    return st.sampled_from(["mixed", "mixed", "single", "multi"]).flatmap(
+    return st.sampled_from(["mixed", "mixed", "single", "multi", "wide"]).flatmap(
         lambda mode: st.builds(resolve_case, st.just(mode), NAMES[mode], init_lines, tag_filter, ops, form,
                                   st.sampled_from([True, True, False])))
 
@@ -1715,7 +1833,8 @@ def minimise(case, sig):
     return best
 
 
-MACHINE_POOL_NAMES = ONE + ["ab", "pa", "xx", "b-1", "apé", "1x", "abp", "p-p", "x1a", "bb"]
+MACHINE_POOL_NAMES = ONE + ["ab", "pa", "xx", "b-1", "apé", "1x", "abp", "p-p", "x1a", "bb",
+                            "a:b", "x:y:z", "a::b", ":a", "1.2", "c++", "42"]
 
 
 def machine_phase(shard, nshards, seed, deadline, rec):
@@ -1890,6 +2009,7 @@ def sources(tier):
                 Enum("repeated-derivations", repeat_cases, REPEAT_DESC),
                 Enum("keep-all-none-all-but-one", keep_cases, KEEP_DESC),
                 Enum("argument-forms", form_cases, FORM_DESC),
+                Enum("name-shapes", name_cases, NAME_DESC),
                 Hyp("pool-histories", gen_case(12), 400, shards=8)]
     return [Enum("op-alphabet<=3", enum_cases(3, ENUM_OPS_IO, ("", OLD)), EXHAUSTIVE["quick"]),
             Enum("long-texts", big_cases, LONG_DESC),
@@ -1898,6 +2018,7 @@ def sources(tier):
             Enum("repeated-derivations", repeat_cases, REPEAT_DESC),
             Enum("keep-all-none-all-but-one", keep_cases, KEEP_DESC),
             Enum("argument-forms", form_cases, FORM_DESC),
+            Enum("name-shapes", name_cases, NAME_DESC),
             Enum("op-alphabet17<=4", enum_cases(4, ENUM_OPS), EXHAUSTIVE["thorough"]),
             Hyp("pool-histories", gen_case(20), 5000, shards=16),
             Custom("state-machine", machine_phase, shards=8)]
